@@ -136,8 +136,10 @@ Example parse_print_const_nonvacuous :
 Proof.
   split.
   - exists toy_parse_float, toy_parse_int, toy_parse_int, toy_float, print_number, print_number.
-    destruct toy_parse_laws as (A & B & C & D). repeat split; try assumption; apply C; assumption.
-  - vm_compute. repeat split. eexists. split; reflexivity.
+    destruct toy_parse_laws as (A & B & C & D).
+    split; [exact A|]. split; [exact B|]. split; [exact C|]. split; [exact C|]. split; [exact D|exact D].
+  - cbv zeta. split; [vm_compute; reflexivity|]. split; [vm_compute; reflexivity|]. split; [vm_compute; reflexivity|].
+    eexists. split; vm_compute; reflexivity.
 Qed.
 
 (* string and byte-string constants need no condition on what follows and fuel 1
@@ -206,7 +208,10 @@ Example parse_print_atom_nonvacuous :
                     end) args = true /\
   (exists l, parse_term_all toy_parse_float (print_atom toy_float print_number print_number (new_atom (bs "foo.bar:baz_1") args))
              = POk (PApply (bs "foo.bar:baz_1") l) [] /\ length l = 5%nat).
-Proof. vm_compute. repeat split. eexists. split; reflexivity. Qed.
+Proof.
+  cbv zeta. split; [vm_compute; reflexivity|]. split; [vm_compute; reflexivity|].
+  eexists. split; vm_compute; reflexivity.
+Qed.
 
 (* ---- the clause level ----------------------------------------------------------
    Not proved: parse_print_clause (Clause.String then parse.Clause). The clause level -
@@ -255,7 +260,8 @@ Theorem map_order_round_trip_refuted :
                  eval (fun _ => None) (fun _ => None) t = Some c' /\ c' <> c /\ canon c' = true.
 Proof.
   exists (map_cons (mk_number 1) (mk_name (bs "/x")) (map_cons (mk_number 2) (mk_name (bs "/y")) map_nil)).
-  vm_compute. repeat split. eexists. eexists. split; [reflexivity|]. split; [reflexivity|]. split; [|reflexivity].
-  intro H. discriminate H.
+  split; [vm_compute; reflexivity|]. split; [vm_compute; reflexivity|]. split; [vm_compute; reflexivity|].
+  eexists. eexists. split; [vm_compute; reflexivity|]. split; [vm_compute; reflexivity|].
+  split; [|vm_compute; reflexivity]. vm_compute. intro H. discriminate H.
 Qed.
 Print Assumptions map_order_round_trip_refuted.
